@@ -1371,6 +1371,7 @@ class Executor:
         if self.choose(g, 'while%d' % lid):
             self.iter_old_env = self.snapshot(self.env)
             ntrace = len(self.trace)
+            self._iter_trace_start = ntrace
             try:
                 self.exec_block(s.body)
             except _Continue:
@@ -1528,8 +1529,9 @@ class Executor:
         self.vc(pre + '.proto.D1', BoolVal(ok), kind='external', note=why)
         # D5: the protocol's result is the *last* yielded item, so once a real value has been yielded the
         # generator must not yield again -- and reading more input can yield an underrun marker
-        self.vc('%s#proto.D5.value-is-last' % self.c.id, z3bool(b_not(self.vy)), kind='external',
-                note='input is consumed (possible underrun yield) after the result value was already yielded')
+        if not getattr(self.c, 'multi_value', False):
+            self.vc('%s#proto.D5.value-is-last' % self.c.id, z3bool(b_not(self.vy)), kind='external',
+                    note='input is consumed (possible underrun yield) after the result value was already yielded')
         final = model(self, *args, **kwargs)     # may fork / raise / add yields to the trace
         self.trace.append(('forwarded-underruns', ast.unparse(it.func)))
         if tname is None:
@@ -2252,6 +2254,10 @@ class Executor:
             return ys[-1] if ys else Obj('NoYield', {}, name='<no yield>')
         if key == 'nyields':
             return len([t for t in self.trace if t[0] == 'yield'])
+        if key == 'iter_values':
+            # result values (not underrun markers / None) yielded since the current iteration of a cut loop began
+            start = getattr(self, '_iter_trace_start', 0)
+            return len([t for t in self.trace[start:] if t[0] == 'yield' and self.is_result_value(t[1])])
         if key in ('last_result', 'last_args', 'last_kwargs'):
             k = n.args[0].value
             if k not in self.last_call:
